@@ -165,7 +165,12 @@ def install():
     def __init__(self, *a, **kw):
         init(self, *a, **kw)
         t = tracked(self)
-        t.source = (a[0] if a else kw.get('filename')) if not (kw.get('excel') or len(a) > 1 and a[1]) else None
+        excel = kw.get('excel') or (a[1] if len(a) > 1 else None)
+        if excel is None:
+            t.source = a[0] if a else kw.get('filename')
+        else:
+            # a wrapper around a workbook file stands for that file
+            t.source = getattr(excel, 'filename', None) if type(excel).__name__ == 'ExcelOpxWrapper' else None
         t.kwargs = {k: v for k, v in kw.items() if k in ('plugins', 'cycles')}
         count('compilers')
 
